@@ -12,6 +12,8 @@
 //             1 eV clamp inside sample_direction is an interior threshold); without relaxation,
 //             with radiative relaxation, with radiative + Auger; relaxation cuts {0, 2.5e-4, 1e-3, 1}
 //             (1e-3 separates the K lines from the L lines; 1 disables relaxation altogether)
+//             for gamma and electron alike, plus split cuts (gamma, electron) = (1e-2, 0),
+//             (0, 1e-2), (2.5e-4, 1e-3), (1e-3, 2.5e-4) [the last also without Auger]
 //   rayleigh  Livermore Rayleigh, gamma          [1e-6, 1e8] MeV  ((0, 1e8])
 //   bh        Bethe-Heitler, gamma               [2 m_e c^2, 1e8] MeV (CELER_EXPECT E >= 2 m_e)
 //   eplusgg   e+ annihilation                    {0} u [1e-6, 1e8] MeV
@@ -32,7 +34,7 @@
 // consistent problem).
 //
 // Per configuration (model variant, particle, material/element, cuts, incident energy) - the
-// outermost, sharded index - all 18 directions (6 axes + 8 diagonals + 4 near-pole letters, see
+// outermost, sharded index - all 20 directions (6 axes + 8 diagonals + 6 near-pole letters, see
 // direction_alphabet()) x all RNG scripts are run
 // with ample secondary storage (every 8th script with exactly the needed number of free slots),
 // plus, per direction, one call with 0 and one with need-1 free slots.
@@ -49,6 +51,11 @@
 //   values      every energy finite and >= 0, every live product's direction unit to 1e-12,
 //               every surviving secondary has a particle id of the problem; absorbed <=> zero
 //               post-interaction energy
+//   identity    ("defined particle types") Compton/delta electrons are electrons, the pair is
+//               one e- and one e+, annihilation and bremsstrahlung products are photons; a
+//               relaxation product whose energy is that of a radiative (non-radiative) EADL
+//               transition of the element is a photon (electron) - the two energy tables of
+//               Z=19 are disjoint, so this decides every product
 //   energy      incident KE (+2 m_e c^2 if the incident is a positron) == outgoing + secondaries
 //               + local deposit (+2 m_e c^2 per outgoing positron), tolerance 8 ulp of the
 //               incident total (at most ~6 roundings of quantities <= that total occur)
@@ -57,12 +64,22 @@
 //               pe, rayleigh, bh, brems: the atom/nucleus takes up momentum there (documented).
 //               Tolerance: 16 eps (sum|p| + E_in * sum 1/beta) + 4 * angle slack (see Audit)
 //               + 4 sum|p| * angular ambiguity of a near-pole incident direction.
+//               eplusgg in flight additionally: photon 0 alone must satisfy the two-body relation
+//               cos(theta_0) = E_tot (1 - m/k0) / p ("photon-kinematics", rounding model at the
+//               check) - alive although the pair's momentum sum is a recorded defect.
 //   threshold   kn electron >= secondary_cutoff(); moller/bhabha electron >= electron cut;
-//               relaxation products >= their cut; brems photon >= min(cut, E) up to the rounding
-//               of "x + d - d" with the density correction d
+//               relaxation products >= the cut of their own particle type; brems photon >=
+//               min(cut, E) up to the rounding of "x + d - d" with the density correction d
 //   storage     free slots < need  => Interaction::from_failure(), stack size unchanged, prefix
 //               untouched; free slots >= need => success, secondaries inside the new allocation
 //   draws       <= 10^4 words
+//
+// Signatures: model:kind@energy-regime; direction-dependent kinds at a near-pole direction letter
+// get @near-pole(y<0) / @near-pole(y>=0) instead (rotate()'s renormalising branch drops the sign
+// of y: recorded); brems draw-bound carries the incident particle, model:draw-bound[e+]@regime;
+// an e+ annihilation momentum imbalance whose second photon lies along the incident direction
+// (the fingerprint of the recorded EPlusGG defect) is eplusgg:momentum-balance[photon1-along-
+// incident], any other imbalance keeps the ordinary signature.
 #include <algorithm>
 #include <cmath>
 #include <cstdint>
